@@ -77,6 +77,7 @@ PROPS = {
     ),
     'C03': dict(
         apalache=TLV_CURSOR_APALACHE,
+        tlaps=[('TlvCursor_proofs', ['TlvCursor'])],
         gens=dict(
             quick=V1_QUICK + g('stream', v2good=60, v2corrupt=60, v2ctrl=300, v2len=120, mixed=60) + TLV_QUICK
             + g('stream', bigtrail=3, huge=2, pipe=20) + g('builder', bseq=60, rebuild=30, bwire=20) + g('writer', wvals=60, wints=1, wbig=1, wpersist=10, wraw=6) + g('format', fmtshapes=60, fmtrand=60)
@@ -142,6 +143,7 @@ PROPS = {
     ),
     'C11': dict(
         apalache=TLV_CURSOR_APALACHE,
+        tlaps=[('TlvCursor_proofs', ['TlvCursor'])],
         gens=dict(quick=TLV_QUICK + g('stream', v2good=120, bparse=100), thorough=TLV_THOROUGH + g('stream', v2good=4000, bparse=3000)),
         models=[MC_TLV, MC_V2],
         rule='one event per next() on arbitrary sections, plus the TLV walk of every accepted v2 header; non-trivial '
